@@ -2095,8 +2095,9 @@ def run(ctx):
                       'record of that exchange; WARC-Concurrent-To is the request record id; serialisation (WARCRecord.__iter__) '
                       'and write_record pass every block chunk on exactly once, unmodified')
     ck.rule('C04-D7', 'the response record ends where the message ends: the reader that produces the reported bytes is chosen by the '
-                      'framing rules (chunked before Content-Length before read-until-close; the C08 framing-choice rule, shared): a '
-                      'chunked message read by Content-Length is archived cut off in the middle of its coding')
+                      'framing rules (chunked before Content-Length before read-until-close), the header block ends at the blank line only and a chunked '
+                      'message is read to the end of its trailer (the C08 rules D1, D4, D5, shared): otherwise the record is cut off or '
+                      'bytes of the message end up in the next record')
     _d1_d2(ctx)
     _d3(ctx)
     for f in (_d4_http, _d4_ftp, _d4_dispatchers, _d5, _d6, _d6_emission, _d6_position):
@@ -2104,3 +2105,6 @@ def run(ctx):
     from .common import RemapCtx
     from . import c08
     c08.d1_framing(RemapCtx(ctx, {'C08-D1': 'C04-D7'}))
+    # ... and where the header block and the chunked message (trailers included) end
+    c08.d5_header(RemapCtx(ctx, {'C08-D5': 'C04-D7'}))
+    c08.d4_chunk(RemapCtx(ctx, {'C08-D4': 'C04-D7'}))
